@@ -142,20 +142,26 @@ SchnorrVerdict(t) == IF SchnorrRules(t) = {} THEN "accept" ELSE "reject"
 (* BIP 341 output key check: q = x(lift_x(p) + t*G) and parity bit = y mod 2, t < n, result not infinity.        *)
 (*   ik: internal key: liftable | not liftable, with q built the way an implementation that "completes" the key *)
 (*       with a bogus y and adds by the chord rule would compute it | x0+p for a tiny liftable x0               *)
-(*   tw: the tweak; "cancel" = minus the secret key of the internal key (the sum is the point at infinity)       *)
+(*   tw: the tweak; "cancel" = minus the secret key of the internal key: lift_x(p) + t*G is the point at infinity *)
+(*       (p = x(t*G) with t*G of odd y).  BIP 341 needs a Q to compare with, so the check fails for EVERY output  *)
+(*       key and both parity bits; the candidates offered are p itself (= x(t*G)), the all-zero key, and "left":  *)
+(*       whatever x coordinate ECPublicTweakAdd leaves in the key when it is called on these inputs              *)
 IkClasses == {"lift_ok", "no_lift", "ge_p"}
 TwClasses == {"zero", "one", "mid", "nm1", "n", "npk", "max", "cancel"}
-TweakCases == [tab : {"tweak"}, ik : IkClasses, tw : TwClasses, par : {"right", "wrong"}, q : {"match", "differ"}]
+TweakCases == [tab : {"tweak"}, ik : IkClasses, tw : TwClasses, par : {"right", "wrong"},
+               q : {"match", "differ", "self", "zero", "left"}]
 TweakConsistent(t) ==
-    /\ t.tw = "cancel" => t.ik = "lift_ok" /\ t.q = "differ"      \* there is no x to match
+    /\ t.tw = "cancel" => t.ik = "lift_ok" /\ t.q \in {"self", "zero", "left"}    \* there is no x to match;
+                                                                                 \* par: "right" = bit 0, "wrong" = bit 1
+    /\ t.tw # "cancel" => t.q \in {"match", "differ"}
     /\ t.ik = "no_lift" => t.tw \in {"mid", "npk"}                \* the chord construction needs a generic t
 TwInRange(c) == c \in {"zero", "one", "mid", "nm1", "cancel"}
 TweakRules(t) ==
     (IF t.ik = "lift_ok" THEN {} ELSE {"ik-" \o t.ik})
     \cup (IF TwInRange(t.tw) THEN {} ELSE {"t-range"})
     \cup (IF t.tw = "cancel" THEN {"infinity"} ELSE {})
-    \cup (IF t.par = "right" \/ Bug = "parity" THEN {} ELSE {"parity"})
-    \cup (IF t.q = "match" THEN {} ELSE {"q-mismatch"})
+    \cup (IF t.par = "right" \/ Bug = "parity" \/ t.tw = "cancel" THEN {} ELSE {"parity"})    \* (no parity to be right about at infinity)
+    \cup (IF t.q = "differ" THEN {"q-mismatch"} ELSE {})
 TweakVerdict(t) == IF TweakRules(t) = {} THEN "accept" ELSE "reject"
 
 -----------------------------------------------------------------------------
@@ -272,6 +278,8 @@ EitherOnlyLax == c.tab = "ecdsa" /\ c.v = "either" => DerKind(c.der) = "lax"
 
 \* BIP 340 / BIP 341: exactly one accepted row shape
 SchnorrExact == c.tab = "schnorr" /\ c.v = "accept" => c.pk = "lift_ok" /\ c.rc = "even" /\ c.sc = "mid" /\ c.eq
+\* when the sum is the point at infinity nothing is accepted, whatever output key and parity bit are offered
+InfinityRefused == c.tab = "tweak" /\ c.sc = "cancel" => c.v = "reject" /\ "infinity" \in c.rules
 TweakExact == c.tab = "tweak" /\ c.v = "accept" => c.pk = "lift_ok" /\ c.x1 = "right" /\ c.x2 = "match" /\ c.sc \in {"zero", "one", "mid", "nm1"}
 
 \* recovery returns a key only for r, s in [1, n-1]
